@@ -949,6 +949,9 @@ class Note:
 
 
     def to_extension_note(self, chord):
+        if self.accident is not None:
+            # Chord tones carry no accidental: an altered note is not one of them
+            return self.copy()
         candidates = chord.extension_notes
         candidates_without_octave = [c.o(-c.octave) for c in candidates]
         try:
@@ -963,6 +966,9 @@ class Note:
             return self.copy()
 
     def to_chord_note(self, chord):
+        if self.accident is not None:
+            # Chord tones carry no accidental: an altered note is not one of them
+            return self.copy()
         candidates = chord.chord_notes
         candidates_without_octave = [c.o(-c.octave) for c in candidates]
         try:
